@@ -5,7 +5,7 @@ import json, os, re, collections
 from vlib import Run, Infra, tla_set, log, cfg_text
 
 BASE = dict(defaultInitValue="defaultInitValue", E=3, R=1, P=1, MaxT=5, MaxKids=4, MaxRecs=2, MaxFaults=0, MaxOpFaults=0,
-            MaxRevokes=1, Ticks="{1}", MidOpTicks="FALSE", EmitEvery=1,
+            MaxRevokes=1, RevokeKinds='{"SK", "IK"}', Ticks="{1}", MidOpTicks="FALSE", Frac="FALSE", EmitEvery=1,
             OpKinds='{"Enc", "Dec", "CloseSession", "Restart"}')
 
 ASSUME = [
@@ -25,7 +25,7 @@ CLAUSES = {
     "C05": ("C05.", "C01.DecryptsBack"),   # ... records written under the revoked key remain decryptable
     "C09": ("C09.",),
     "C10": ("C10.",),
-    "C14": ("C14.", "C02.ChainDurableAtReturn"),
+    "C14": ("C14.", "C02.ChainDurableAtReturn", "C02.RecoversWhenFaultsStop"),   # ... and every racer gets a record (no fault, no error)
     "C20": ("C20.",),
 }
 
@@ -40,7 +40,7 @@ def family(run, label, over, procs=("p1",), parts=("a",), ik=("session", "shared
              SessModes="{" + ",".join("TRUE" if x else "FALSE" for x in sess) + "}", CfgSet="<- UniformCfgs")
     run.spec_files("Envelope.tla", "EnvelopeMC.tla", "EnvelopeGen.tla", "EnvelopeObs.tla")
     run.write("GEN_%s.cfg" % label, cfg_text("GSpec", c, invs=["ChainClosed", "NoIKUnderExpiredSK", "NoViolation", "UniqueKeys"],
-                                             view="ViewVars", props=[] if simulate else ["InsertOnly"],
+                                             view="ViewVars", props=[] if simulate else ["InsertOnly", "LatestMovesForward"],
                                              action_constraint="LocalStepsFirst" if len(procs) > 1 else None))
     g = run.tlc("EnvelopeGen.tla", "GEN_%s.cfg" % label, timeout=timeout, out_name="gen_%s.out" % label, simulate=simulate)
     if simulate is None:
@@ -135,7 +135,7 @@ def _finish(run, what):
                       explanation="verdicts come only from monitor clauses %s evaluated by TLC on traces of the real code" % (CLAUSES[run.prop],))
 
 
-def generic(run, fams):
+def generic(run, fams, extra=None):
     trace = os.path.join(run.work, "trace.ndjson")
     for label, kw in fams:
         res, viols = family(run, label, **kw)
@@ -143,7 +143,9 @@ def generic(run, fams):
         other = collections.Counter(v[0] for v in viols if not v[0].startswith(tuple(CLAUSES[run.prop])))
         if other:
             run.notes.append("%s: clauses of other properties seen (reported by their own checks): %s" % (label, dict(other)))
-    return _finish(run, "families: " + ", ".join(l for l, _ in fams))
+    if extra:
+        extra(run)       # a part under the cooperative scheduler (after the families: it switches the build to the sched overlay)
+    return _finish(run, "families: " + ", ".join(l for l, _ in fams) + ("; " + extra.__doc__.strip() if extra else ""))
 
 
 def check_C01(run):
@@ -247,6 +249,12 @@ def check_C04(run):
                                 ik=("session",), sk=(True,)))]
     fams.append(("E-multiple-of-P", dict(over=dict(E=2, R=1, P=2, MaxT=8 if q else 10, Ticks="{1}", MaxKids=6, MaxRecs=1, MaxRevokes=0, EmitEvery=8 if q else 30),
                                          ik=("session", "none"), sk=(True,))))
+    # "now" is never a whole second (virtual clock = model time + 150 ms): expiry arithmetic done in whole seconds shows up
+    fams.append(("expiry-subsecond", dict(over=dict(Frac="TRUE", MaxT=6 if q else 8, MaxKids=6, MaxRecs=1, MaxRevokes=0, EmitEvery=10 if q else 20),
+                                          ik=("session", "none"), sk=(True,) if q else (True, False))))
+    # an intermediate key younger than its system key (second partition), the system key expires first, the old record is read again
+    fams.append(("older-key-2parts", dict(over=dict(MaxT=6, MaxKids=5, MaxRecs=2, MaxRevokes=0, Ticks="{2,1}", OpKinds='{"Enc", "Dec"}', EmitEvery=6 if q else 2),
+                                          parts=("a", "b"), ik=("session",), sk=(True,))))
     if not q:
         fams.append(("expiry+revoke", dict(over=dict(MaxT=7, MaxKids=6, MaxRecs=1, MaxRevokes=1, EmitEvery=60), ik=("session", "shared"), sk=(True, False))))
     return generic(run, fams)
@@ -285,7 +293,8 @@ def check_C02(run):
     if not q:
         fams.append(("faults-2proc", dict(over=dict(MaxT=1, Ticks="{1}", MaxKids=4, MaxRecs=1, MaxRevokes=0, MaxFaults=2, MaxOpFaults=1, EmitEvery=100),
                                           procs=("p1", "p2"), ik=("session",), sk=(True,))))
-    return generic(run, fams)
+    import eng_conc
+    return generic(run, fams, extra=eng_conc.cold_race_part)
 
 
 def check_C14(run):
@@ -295,9 +304,13 @@ def check_C14(run):
                                   simulate=("num=%d" % (400 if q else 20000)), ))]
     fams.append(("race-revoked", dict(over=dict(MaxT=1 if q else 2, Ticks="{1}", MaxKids=5 if q else 6, MaxRecs=1, MaxRevokes=1, EmitEvery=4 if q else 20, OpKinds='{"Enc"}' if q else '{"Enc", "Dec"}'), procs=("p1", "p2"),
                                       ik=("session",) if q else ("session", "none"), sk=(True,))))
+    # warm process still trusting a system key that was revoked in the store, cold process rotating it, both creating the IK of a second partition
+    fams.append(("race-revoked-sk-2parts", dict(over=dict(MaxT=2, Ticks="{1}", MaxKids=5, MaxRecs=1, MaxRevokes=1, RevokeKinds='{"SK"}', EmitEvery=20 if q else 3, OpKinds='{"Enc"}'), procs=("p1", "p2"), parts=("a", "b"),
+                                                ik=("session",), sk=(True,))))
     if not q:
         fams.append(("race-2parts", dict(over=dict(MaxT=1, Ticks="{1}", MaxKids=5, MaxRecs=2, MaxRevokes=0, EmitEvery=50), procs=("p1", "p2"), parts=("a", "b"), ik=("shared",), sk=(True,))))
-    return generic(run, fams)
+    import eng_conc
+    return generic(run, fams, extra=eng_conc.cold_race_part)
 
 
 def replay(run, finding):
@@ -306,6 +319,16 @@ def replay(run, finding):
     if not tr:
         print("nothing to replay")
         return 2
+    if case.get("coldrace"):
+        from vlib import validate_traces
+        run.spec_files("ColdRaceTrace.tla")
+        p = os.path.join(run.work, "trace.ndjson")
+        with open(p, "w") as f:
+            for e in tr:
+                f.write(json.dumps(e) + "\n")
+        rej = validate_traces(run, "ColdRaceTrace.tla", {}, [], p, "replay", max_reject=1)
+        print("recorded schedule: " + ("rejected by ColdRaceTrace.tla at %s" % json.dumps(rej[0]["event"])[:300] if rej else "accepted"))
+        return 1 if rej else 0
     run.spec_files("EnvelopeObs.tla")
     p = os.path.join(run.work, "trace.ndjson")
     with open(p, "w") as f:
